@@ -88,6 +88,9 @@ pub struct Mode {
     pub clock_check: bool,
     /// C15: target-clock replay for every thread's last operation (else main's only)
     pub clock_all_targets: bool,
+    /// take every `stride`-th program of the set (1 = all); with a large thorough set this spreads a
+    /// bounded pass over all program sizes instead of the simplest ones only
+    pub stride: usize,
 }
 
 impl Default for Mode {
@@ -108,6 +111,7 @@ impl Default for Mode {
             iso_max_b: 0,
             clock_check: false,
             clock_all_targets: false,
+            stride: 1,
         }
     }
 }
@@ -771,6 +775,7 @@ impl Serialize for Mode {
             "iso_max_b": self.iso_max_b,
             "clock_check": self.clock_check,
             "clock_all_targets": self.clock_all_targets,
+            "stride": self.stride,
         })
         .serialize(s)
     }
@@ -793,6 +798,7 @@ pub fn mode_from_json(v: &serde_json::Value) -> Mode {
         iso_max_b: v["iso_max_b"].as_u64().unwrap_or(0) as usize,
         clock_check: v["clock_check"].as_bool().unwrap_or(false),
         clock_all_targets: v["clock_all_targets"].as_bool().unwrap_or(false),
+        stride: v["stride"].as_u64().unwrap_or(1).max(1) as usize,
     }
 }
 
@@ -898,7 +904,7 @@ pub fn worker_main(fam: &dyn FamilyDyn, set: &str, mode: &Mode, shard: usize, ns
     let out = std::io::stdout();
     let idxs: Vec<usize> = match only {
         Some(i) => vec![i],
-        None => (from..n).filter(|i| i % nshards == shard).collect(),
+        None => (from..n).filter(|i| i % mode.stride == 0 && (i / mode.stride) % nshards == shard).collect(),
     };
     for idx in idxs {
         if t0.elapsed().as_secs_f64() > deadline_s {
@@ -943,7 +949,7 @@ fn spawn_worker(fam: &str, set: &str, mode: &Mode, shard: usize, nshards: usize,
 /// Run one family/set in `nshards` worker processes and aggregate. A worker that dies is attributed
 /// to the program it was running, which is re-run alone to confirm; the shard then continues.
 pub fn run_family(fam: &dyn FamilyDyn, set: &str, mode: &Mode, nshards: usize, deadline_s: f64) -> FamAgg {
-    let total = fam.len(set).min(mode.max_programs);
+    let total = (fam.len(set).min(mode.max_programs) + mode.stride - 1) / mode.stride;
     let mut agg = FamAgg {
         family: fam.name().to_string(),
         set: set.to_string(),
